@@ -112,6 +112,24 @@ func Load(dir string, overlay map[string][]byte) (*Program, error) {
 			p.modFuncs = append(p.modFuncs, fn)
 		}
 	}
+	// generic functions are reachable only through their instantiations: add the
+	// (uninstantiated) origins, which carry the source-level body once
+	have := map[*ssa.Function]bool{}
+	for _, fn := range p.modFuncs {
+		have[fn] = true
+	}
+	for _, fn := range append([]*ssa.Function{}, p.modFuncs...) {
+		for o := fn.Origin(); o != nil && !have[o] && o.Blocks != nil; o = nil {
+			have[o] = true
+			p.modFuncs = append(p.modFuncs, o)
+			for _, a := range o.AnonFuncs {
+				if !have[a] && a.Blocks != nil {
+					have[a] = true
+					p.modFuncs = append(p.modFuncs, a)
+				}
+			}
+		}
+	}
 	sort.Slice(p.modFuncs, func(i, j int) bool {
 		a, b := p.modFuncs[i], p.modFuncs[j]
 		if a.String() != b.String() {
